@@ -8,7 +8,8 @@ THEOREMS = ["C20_order", "C20_register_occupied_noop", "C20_register_free_succee
             "C20_refinement", "C20_error_partial", "C20_error_root_fallback", "C20_error_refuted",
             "C20_children_oracle", "C20_dispatch_oracle", "C20_known_object_oracle",
             "C20_dispatch_refines", "C20_dispatch_strict_partial", "C20_dispatch_strict_refuted", "C20_dispatch_quiet",
-            "C20_conn_error_refuted", "C20_pending_first", "C20_peer_builtin", "C20_get_user_data", "C20_free_all_members"]
+            "C20_conn_error_refuted", "C20_pending_first", "C20_peer_builtin", "C20_get_user_data", "C20_free_all_members",
+            "C20_free_all_count", "C20_decompose_spec", "C20_decompose_valid_path"]
 
 # path elements whose strcmp order is easy to get wrong: prefixes of each other,
 # '0' < 'A' < 'Z' < '_' < 'a', siblings that sort adjacently
@@ -227,6 +228,66 @@ def gen_exhaustive(universe, maxlen, probes, lists):
     return out
 
 
+def relaxed_ok(b):
+    """strings on which _dbus_decompose_path runs without tripping an assertion (python-side oracle, independent of the model)"""
+    if len(b) == 1: return True
+    return len(b) >= 2 and 0 not in b and b[0] == 0x2f and b[-1] != 0x2f and b"//" not in b
+
+
+def expected_decompose(b):
+    if len(b) == 1: return "0:-:2f"
+    parts = b[1:].split(b"/")
+    return "%d:%s:%s" % (len(parts), ",".join(x.hex() for x in parts), b.hex())
+
+
+def gen_decompose_cases(rnd, quick):
+    out = []
+    for n in range(0, 8 if quick else 10):
+        for t in itertools.product(b"/a_", repeat=n): out.append(bytes(t))
+    for c in range(256): out += [bytes([c]), b"/" + bytes([c]), b"/a" + bytes([c]) + b"b", bytes([c]) + b"/a"]
+    for _ in range(1500 if quick else 60000):
+        k = rnd.random()
+        if k < 0.5:
+            out.append(b"".join(b"/" + bytes(rnd.choice(b"abcXYZ019_") for _ in range(rnd.randint(1, 6))) for _ in range(rnd.randint(1, 9))))
+        else:
+            out.append(bytes(rnd.choice(b"/a_\x00-./b") for _ in range(rnd.randint(0, 12))))
+    return out
+
+
+def check_decompose(rep, info, rnd, quick):
+    cases = list(dict.fromkeys(gen_decompose_cases(rnd, quick)))
+    lines = ["P %s" % (c.hex() or "-") for c in cases]
+    model, mcr = vlib.run_lines(info["model_objtree"], lines)
+    ok_cases = [c for c in cases if relaxed_ok(c)]
+    impl, icr = vlib.run_lines(info["objtree_h"], ["P %s" % c.hex() for c in ok_cases])
+    for line, err in icr:
+        rep.violation("_dbus_decompose_path crashed / asserted on `%s`: %s" % (line, err[-500:]), {"line": line, "stderr": err})
+    impl_of = dict(zip(ok_cases, impl))
+    n_ok = 0
+    for c, m in zip(cases, model):
+        mm, _, sp = m.partition(" | ")
+        exp = expected_decompose(c) if relaxed_ok(c) else "!"
+        rp = {"line": "P %s" % (c.hex() or "-"), "model": m, "expected": exp}
+        if c in impl_of and impl_of[c] != "!CRASH":
+            n_ok += 1
+            i = impl_of[c]
+            first = i.split(" ")[0]
+            rp["impl"] = i
+            if first + ":" + (c.hex() if len(c) > 1 else "2f") != exp:
+                rep.violation("_dbus_decompose_path(%r) gives %s, the path string has the elements %s" % (c, first, exp), rp)
+                continue
+            if " msg=" in i and i.split(" msg=")[1] != first.split(":")[1]:
+                rep.violation("dbus_message_get_path_decomposed(%r) gives %s, _dbus_decompose_path %s" % (c, i.split(" msg=")[1], first), rp)
+                continue
+        if mm != exp:
+            rp["names"] = "correspondence ObjTree.Decompose.decompose vs expected elements"
+            rep.violation("model of _dbus_decompose_path on %r says %s, expected %s" % (c, mm, exp), rp, found_input=False)
+        elif sp != "n/a" and sp != mm:
+            rp["names"] = "Spec.NamesSpec path_elements vs decompose model"
+            rep.violation("path elements of valid path %r: specification %s, model %s" % (c, sp, mm), rp, found_input=False)
+    return len(cases), n_ok
+
+
 def f12_shape(tok_impl, tok_spec):
     """UnknownMethod sent where the property text demands UnknownObject, same handlers invoked."""
     return (tok_impl[:2] in ("c=", "d=") and tok_spec[:2] == tok_impl[:2] and tok_impl.endswith(":M") and tok_spec.endswith(":O")
@@ -237,12 +298,6 @@ def run(ctx):
     rep, tier, info = ctx["rep"], ctx["tier"], ctx["info"]
     rnd = random.Random(ctx["seed"])
     known = {k["id"]: k for k in vlib.load_known("C20")}
-    # entries proposed in notes/C20.findings.json count until the coordinator has merged them into known-findings.json
-    pf = os.path.join(vlib.VERIF, "notes", "C20.findings.json")
-    if os.path.exists(pf):
-        for k in json.load(open(pf)):
-            if k.get("property") == "C20" and k.get("status") == "known":
-                known.setdefault(k["id"], k)
     quick = tier == "quick"
     lines = []
     origin = {}
@@ -272,6 +327,7 @@ def run(ctx):
             l = "c " + " ".join(gen_dispatch_history(rnd2)); lines.append(l); origin.setdefault(l, "random")
         for _ in range(1500 if quick else 40000):
             l = "t " + " ".join(gen_dispatch_history(rnd2, True)); lines.append(l); origin.setdefault(l, "random")
+    n_dec, n_dec_impl = (0, 0) if ctx.get("replay") else check_decompose(rep, info, random.Random(ctx["seed"] + 77), quick)
     seen = set(); uniq = []
     for l in lines:
         if l not in seen:
@@ -357,17 +413,25 @@ def run(ctx):
                 "through a real connection pair, each followed by calls to 12 probe paths (inside, beside, below) and 6 child listings; random histories "
                 "(2..14 mutations over generated path sets with shared prefixes, up to 12 adjacently sorting siblings, the root, unregistration in the "
                 "middle, declining and accepting handlers) with interleaved calls / list_registered / Introspect; non-trivial = at least one handler "
-                "was invoked; distinct = distinct history lines" % (3 if quick else 4, 5 if quick else 6),
+                "was invoked; distinct = distinct history lines; plus (level c) every <=2-operation action sequence over /a, /a/b, /a/b/c performed by each "
+                "callback of a call to /a/b/c, and random histories with filters, all message types x Peer/Introspectable/other/no interface, "
+                "accepting / NEED_MEMORY-once / re-entrantly registering and unregistering callbacks, pending-call replies, get_object_path_data "
+                "and the unregister order at connection death; plus _dbus_decompose_path on all strings <= 7 over {/,a,_}, every byte in 4 "
+                "positions and random strings" % (3 if quick else 4, 5 if quick else 6),
+        "decompose_path_cases": n_dec, "decompose_path_cases_run_on_implementation": n_dec_impl,
         "samples": samples, "input_distribution": dist, "observed_by_implementation": outcomes, "origin": {k: sum(1 for l in lines if origin.get(l) == k) for k in ("corpus", "exhaustive", "random")},
         "traces_validated_against_impl": len(lines), "result_tokens_compared": n_tokens_checked,
         "disagreements_checked": len(rep.violations), "exhaustive": False,
         "explanation": "theorems: for every history the trie model refines the flat registration map (order of handlers, occupied-path "
-                       "rejection, child listing, tree invariant; error choice partially, F12); correspondence: implementation = model on every "
+                       "rejection, child listing, tree invariant; error choice partially, F12), the whole dispatch of one message refines the flat-map "
+                       "dispatch (re-entrancy strict only partially, F12b), decompose_path characterised completely; correspondence: implementation = model on every "
                        "generated history, observation by observation; the specification oracle is evaluated on every observation as well",
     })
     rep.assumptions = [
         "coq/ObjTree/ObjTree.v is hand-written after dbus-object-tree.c; tied to the code only by this run",
-        "handlers do not register/unregister paths re-entrantly from inside a callback; single thread; no allocation failure",
+        "coq/ObjTree/Dispatch.v and Decompose.v likewise (dbus_connection_dispatch, _dbus_object_tree_dispatch_and_unlock, _dbus_decompose_path)",
+        "single thread; no allocation failure inside the library (callbacks returning NEED_MEMORY are covered); filters are not added/removed from inside callbacks",
+        "pointer identity of referenced subtrees is modelled as path + attached bit (justification in the header of Dispatch.v); tied to the code by the re-entrant histories of this run",
         "mode t derives M/O from the DBusHandlerResult and *found_object; the error actually sent is observed in mode c only",
-        "Peer-interface built-ins are not exercised; the default Introspect reply is, for its child list",
+        "GetMachineId is only observed as 'answered by the library' (method return with a string or the error reading the id)",
     ]
